@@ -32,4 +32,6 @@ for rid in ids:
     finally:
         sh("git -C /repo checkout -- . && git -C /repo clean -fdq")
     json.dump(res, open(respath, "w"), indent=1, sort_keys=True)
+# the checks regenerate lean/Facts/Generated.lean from whatever /repo holds: leave the facts of the CLEAN tree behind
+sh("cd %s && git checkout -- lean/Facts/Generated.lean" % V)
 assert sh("git -C /repo status --porcelain").stdout.strip() == "", "/repo not clean after refactest"
